@@ -85,7 +85,7 @@ _QUICK_FLOORS = {
     'in_fail_pos:inside': 1500, 'in_fail_pos:empty-text': 350,
     'in_text:unicode-breaks': 5000, 'in_text:long-line': 250, 'in_text:empty': 350,
     'in_budget_decisive': 19000, 'in_preflight_counting': 7000, 'in_ops_decisive': 6500,
-    'in_model_building_executions': 1500, 'in_grammars:typed-builtin': 150,
+    'in_model_building_executions': 1500, 'in_reentrant_with_inner': 600, 'in_grammars:typed-builtin': 150,
     'in_preflight_with_call_clock': 7000, 'in_buffer_with_call_clock': 5000, 'in_text:brace-words': 500,
     'gr_texts': 3000, 'gr_rejected_failure_judged': 1000, 'gr_compiled': 380, 'gr_templates': 160,
     'gr_shipped': 240, 'gr_mut:char': 750, 'gr_mut:token': 750, 'gr_followup_parses': 750,
@@ -349,6 +349,8 @@ class InCase:
         kw = {'start': 'start', 'heart': heart}
         if variant['parseinfo']:
             kw['parseinfo'] = True
+        if variant.get('semantics_obj') is not None:
+            kw['semantics'] = variant['semantics_obj']
         if variant.get('builder'):
             if variant['parser'] == 'api':
                 kw['asmodel'] = True
@@ -396,6 +398,69 @@ class InCase:
 
 
 VARIANTS = [{'impl': impl, 'parseinfo': pi} for impl in ('str', 'TextLines', 'Buffer') for pi in (False, True)]
+
+
+class Reentrant:
+    """a semantics object whose actions parse OTHER texts with the same model / parser class while the outer parse is
+    under way (an action that parses an embedded piece of text: a legitimate use); it changes no value"""
+
+    def __init__(self, parse, texts, limit=3):
+        self.parse, self.texts, self.left, self.inner = parse, list(texts), limit, []
+
+    def _default(self, ast, *a, **kw):
+        if self.left > 0 and self.texts:
+            self.left -= 1
+            t = self.texts[self.left % len(self.texts)]
+            try:
+                self.parse(t)
+                self.inner.append('ok')
+            except BaseException as e:  # noqa: BLE001 - the class is the observation
+                if isinstance(e, (KeyboardInterrupt, SystemExit)):
+                    raise
+                self.inner.append(type(e).__name__ if not O.is_tatsu_exception(e) else 'tatsu')
+                if not O.is_tatsu_exception(e):
+                    self.foreign = e
+        return ast
+
+
+def outcome_key(tag, res):
+    from ..ref import crepr
+    if tag == 'ok':
+        return 'ok:' + crepr(res)
+    return 'exc:' + O.class_name(res)
+
+
+def check_reentrant(acc, case, text, others, origin):
+    """metamorphic: an action that runs inner parses on the same model/parser class must not change the outer parse,
+    and neither parse may raise a foreign exception"""
+    v = {'impl': 'str', 'parseinfo': False, 'parser': 'generated' if case.parser_cls is not None else 'model'}
+    tag0, res0, _ = case.execute(text, v)
+    if tag0 == 'exc' and not O.is_tatsu_exception(res0):
+        return   # already reported by the plain variants
+    if v['parser'] == 'generated':
+        inner = lambda t: case.parser_cls().parse(t, start='start')   # noqa: E731
+    else:
+        inner = lambda t: case.model.parse(t, start='start')          # noqa: E731
+    sem = Reentrant(inner, others)
+    tag1, res1, _ = case.execute(text, dict(v, semantics_obj=sem))
+    acc.evaluations += 1
+    acc.count('in_reentrant_parses')
+    acc.count('in_reentrant_inner_parses', len(sem.inner))
+    if not sem.inner:
+        return
+    acc.count('in_reentrant_with_inner')
+    problem = None
+    if getattr(sem, 'foreign', None) is not None:
+        problem = ('reentrant/inner-exc:' + O.class_name(sem.foreign),
+                   f'a parse started from a semantic action (same {v["parser"]}) raised {O.class_name(sem.foreign)}: {str(sem.foreign)[:100]}')
+    elif outcome_key(tag0, res0) != outcome_key(tag1, res1):
+        problem = ('reentrant/outer-outcome-changed',
+                   f'inner parses run by a semantic action changed the outer parse ({v["parser"]}): without {outcome_key(tag0, res0)[:160]} '
+                   f'with {outcome_key(tag1, res1)[:160]} (inner texts {others[:3]!r} -> {sem.inner})')
+    if problem:
+        acc.violation(problem[0], f'{problem[1]}; grammar {case.src.strip()!r} input {short(text)!r}',
+                      {'kind': 'reentrant', 'grammar': L.to_json(case.g), 'grammar_text': case.src, 'text': text,
+                       'others': others, 'route': case.route, 'origin': origin, 'want_generated': case.parser_cls is not None})
 
 
 def observe_input(case, text, variant, watchdog_s=None):
@@ -615,6 +680,8 @@ def run_inputs(desc, acc):
                     acc.count('in_model_building_failures_judged')
                 if cls in ('Watchdog', 'Stalled'):
                     stuck += 1
+            if i % 4 == 2 and j < 4 and label != 'typed-builtin':
+                check_reentrant(acc, case, text, [t for t, _ in texts if t != text][:3], origin)
             if stuck >= 2:
                 # each further text would cost another watchdog period: the grammar is already reported / inconclusive
                 acc.count('in_grammars_abandoned_after_two_hangs')
@@ -1178,6 +1245,10 @@ def replay(w, acc):
             build_violation(acc, case, {'mode': 'replay'})
             return
         check_input(acc, case, w['text'], v, set(), {'mode': 'replay'}, shrink=False)
+    elif kind == 'reentrant':
+        case = InCase(L.from_json(w['grammar']), w.get('route', 'object'), want_generated=w.get('want_generated', False))
+        if case.build_exc is None:
+            check_reentrant(acc, case, w['text'], w.get('others', []), {'mode': 'replay'})
     elif kind == 'build':
         case = InCase(L.from_json(w['grammar']), w.get('route', 'object'))
         if case.build_exc is not None:
